@@ -80,7 +80,7 @@ func c08Render(tok string, mode srvMode, k int) string {
 
 func c08Run(ctx *core.Ctx) {
 	cs := c08Corpus()
-	ctx.Rule = fmt.Sprintf("(1) every octet offset of %d conversations (DATA, BDAT, AUTH exchanges; SMTP/LMTP) x {clean close, timeout error, reset error} x {one segment, per line}; (2) a STARTTLS conversation cut at every plaintext offset and at every offset of the inner TLS conversation; (3) server-initiated ends {QUIT, error threshold, over-long line, idle timeout (virtual deadline), backend panic inside Mail / NewSession / Rcpt / Data / Reset} x every suffix of length <=2 over %v already buffered in the closing command's segment x ReadTimeout {0, set} x {SMTP, LMTP}; each part also at GOMAXPROCS=1. Oracle: session-lifecycle automaton over the backend event log + goroutine table at the end of the run. Non-trivial: the connection ends while a session exists; distinct by full case.", len(cs), c08SuffixAlphabet)
+	ctx.Rule = fmt.Sprintf("(1) every octet offset of %d conversations (DATA, BDAT, AUTH exchanges; SMTP/LMTP) x {clean close, timeout error, reset error} x {one segment, per line}; (2) a STARTTLS conversation cut at every plaintext offset and at every offset of the inner TLS conversation; (3) server-initiated ends {QUIT, error threshold, over-long line, idle timeout (virtual deadline), backend panic inside Mail / NewSession / Rcpt / Data (early, and after the whole message was read, via DATA and via BDAT LAST) / Reset} x every suffix of length <=2 over %v already buffered in the closing command's segment x ReadTimeout {0, set} x {SMTP, LMTP}; each part also at GOMAXPROCS=1. Oracle: session-lifecycle automaton over the backend event log + goroutine table at the end of the run. Non-trivial: the connection ends while a session exists; distinct by full case.", len(cs), c08SuffixAlphabet)
 	ctx.Exhaustive = true
 	ctx.Assumptions = []string{"goroutine leak check is global: at the end of the run no goroutine with a go-smtp frame may remain", "known finding C08:data-begins-after-logout is matched only when the late Data call read zero octets"}
 	core.RunCases(ctx, func(emit func(c08Case)) {
@@ -127,7 +127,7 @@ func c08Run(ctx *core.Ctx) {
 			}
 		}
 		for _, mode := range []srvMode{modeSMTP, modeLMTPRcpt} {
-			for _, reason := range []string{"quit", "errors", "errors:FOO", "errors:ABCDE", "errors:", "errors:mixed", "longline", "timeout", "panic", "panic:NewSession", "panic:Rcpt", "panic:Data", "panic:Reset", "timeout-in-auth", "timeout-in-data"} {
+			for _, reason := range []string{"quit", "errors", "errors:FOO", "errors:ABCDE", "errors:", "errors:mixed", "longline", "timeout", "panic", "panic:NewSession", "panic:Rcpt", "panic:Data", "panic:Reset", "panic:BdatLast", "panic:DataAtEOF", "timeout-in-auth", "timeout-in-data"} {
 				for _, rt := range []bool{false, true} {
 					if strings.HasPrefix(reason, "timeout") && !rt {
 						continue
@@ -553,6 +553,16 @@ func c08SrvEnd(ctx *core.Ctx, c c08Case) {
 			r.ReadAll(64)
 			return nil
 		}
+	case "panic:BdatLast", "panic:DataAtEOF":
+		// the backend reads the whole message and panics afterwards: the panic surfaces when the
+		// final reply is due
+		rig.BE.H.Data = func(sess int, r *rec.Reader, st smtp.StatusCollector) error {
+			r.ReadAll(64)
+			if strings.HasPrefix(string(r.Got), "PANI") {
+				panic("scripted backend panic v#77 after reading the message")
+			}
+			return nil
+		}
 	case "panic:Reset":
 		var once atomic.Bool
 		rig.BE.H.Reset = func(sess int) {
@@ -602,6 +612,12 @@ func c08SrvEnd(ctx *core.Ctx, c c08Case) {
 		script = c.Mode.hello() + "\r\nMAIL FROM:<s@x.test>\r\nRCPT TO:<panic@x.test>\r\n"
 		nBefore = 3
 	case "panic:Data":
+		script = c.Mode.hello() + "\r\nMAIL FROM:<s@x.test>\r\nRCPT TO:<r@x.test>\r\nDATA\r\nPANIC now\r\n.\r\n"
+		nBefore = 5
+	case "panic:BdatLast":
+		script = c.Mode.hello() + "\r\nMAIL FROM:<s@x.test>\r\nRCPT TO:<r@x.test>\r\nBDAT 11 LAST\r\nPANIC now\r\n"
+		nBefore = 4
+	case "panic:DataAtEOF":
 		script = c.Mode.hello() + "\r\nMAIL FROM:<s@x.test>\r\nRCPT TO:<r@x.test>\r\nDATA\r\nPANIC now\r\n.\r\n"
 		nBefore = 5
 	case "panic:Reset":
